@@ -1,0 +1,11 @@
+//go:build verif
+
+package main
+
+// Contracts for the command's top level (property C04). Comment-only file, read by /verif/engine (govc).
+
+// handlePanic runs as main's deferred call: if it recovers a panic the process must not end with status 0.
+//@ func handlePanic()
+//@   deferred-handler
+//@   ensures $recovered ==> $exited && $exitcode != 0
+//@   modifies *
